@@ -423,8 +423,9 @@ func fp(bs []byte) string {
 	return fmt.Sprintf("[%d; %s; %s; %s]", n, s0, s1, s2)
 }
 
-// observe: exact (full) or fingerprinted observation of instance in
-func observe(in *inst, full bool) (s string, panicked any) {
+// observe: the observation of instance in, as an exact Coq term (full) and as
+// the bytes that go into the case's checksum
+func observe(in *inst, full bool) (s string, sum []byte, panicked any) {
 	defer func() {
 		if r := recover(); r != nil {
 			panicked = r
@@ -433,9 +434,12 @@ func observe(in *inst, full bool) (s string, panicked any) {
 	}()
 	toks := hclwrite.VerifFileTokens(in.f)
 	if full {
-		return fmt.Sprintf("ObsOk %s (%s)", hv.Hexs(encToks(toks)), observeBody(in.f.Body())), nil
+		return fmt.Sprintf("ObsOk %s (%s)", hv.Hexs(encToks(toks)), observeBody(in.f.Body())), nil, nil
 	}
-	return fmt.Sprintf("ObsFp %s %s", fp(encToks(toks)), fp(serBody(in.f.Body()))), nil
+	sum = append(encToks(toks), 255)
+	sum = append(sum, serBody(in.f.Body())...)
+	sum = append(sum, 254)
+	return "ObsSum", sum, nil
 }
 
 func (p *coqPrinter) unescTable() string {
@@ -454,6 +458,13 @@ func (p *coqPrinter) unescTable() string {
 		}
 	}
 	return hv.CoqList(items)
+}
+
+func wrapObs(s string) string {
+	if strings.Contains(s, " ") {
+		return "(" + s + ")"
+	}
+	return s
 }
 
 // ---- the direct oracle ------------------------------------------------------------------
@@ -644,9 +655,10 @@ func runCase(c *tcase, emit bool, full bool) (res *caseResult) {
 	pr := &coqPrinter{unesc: map[string]bool{}}
 	var init, obs0 string
 	var hist []string
+	var sum []byte
 	if emit {
 		init = pr.state(hclwrite.VerifDumpFile(a.f), a.shelf)
-		obs0, _ = observe(a, full)
+		obs0, sum, _ = observe(a, full)
 	}
 	oracleOn := true
 	report := func(step int, fs []oracleFail) {
@@ -693,9 +705,13 @@ func runCase(c *tcase, emit bool, full bool) (res *caseResult) {
 		m.apply(o)
 		if emit {
 			ob := "ObsPanic"
-			if ra.panicked == nil {
+			if ra.panicked != nil {
+				sum = append(sum, 253)
+			} else {
 				var p any
-				ob, p = observe(a, full)
+				var sb []byte
+				ob, sb, p = observe(a, full)
+				sum = append(sum, sb...)
 				if p != nil && oracleOn {
 					report(step, []oracleFail{{"panic", fmt.Sprintf("a reader panicked: %v", p)}})
 				}
@@ -759,7 +775,11 @@ func runCase(c *tcase, emit bool, full bool) (res *caseResult) {
 			res.err = pr.err
 			return
 		}
-		res.coq = fmt.Sprintf("mkCase\n (%s)\n %s\n (%s)\n %s", init, pr.unescTable(), obs0, hv.CoqList(hist))
+		ck := "[]"
+		if !full {
+			ck = fp(sum)
+		}
+		res.coq = fmt.Sprintf("mkCase\n (%s)\n %s\n %s\n %s\n %s", init, pr.unescTable(), wrapObs(obs0), hv.CoqList(hist), ck)
 	}
 	return
 }
